@@ -566,4 +566,89 @@ theorem routes_run (al bl : List Route) (R : List String) (h : RoutesWF al bl R)
         exact ⟨b, by rw [hil]; exact List.mem_map.mpr ⟨j, hjI, hgj⟩, h1⟩
     rw [hremD, haddI]
 
+
+/-! ## the two lists the loops of `diffRoutes` run over, flattened -/
+
+theorem route_dels_flat (al : List Route) (rs : List Range) :
+    (rs.flatMap fun r =>
+        if r.isDelete then (List.range (r.highA - r.lowA)).map fun i => (r.lowA + i, al.getD (r.lowA + i) default)
+        else []) = (fDel rs).map fun k => (k, al.getD k default) := by
+  rw [fDel, List.map_flatMap]
+  apply flatMap_congr'
+  intro r _
+  split
+  · simp [idxs, List.map_map, Function.comp_def]
+  · rfl
+
+theorem route_inss_flat (n : Nat) (bl : List Route) (rs : List Range)
+    (hk : ∀ r ∈ rs, (kindOf n bl.length r).isSome = true) :
+    (rs.flatMap fun r => if r.isInsert then slice bl r.lowB r.highB else []) =
+      (fIns rs).map fun j => bl.getD j default := by
+  rw [fIns, List.map_flatMap]
+  apply flatMap_congr'
+  intro r hr
+  split
+  · rename_i hins
+    cases hkk : kindOf n bl.length r with
+    | none => have := hk r hr; rw [hkk] at this; cases this
+    | some kd =>
+      cases kd with
+      | del => have := (tests_del hkk).2.1; rw [hins] at this; cases this
+      | eq => have := (tests_eq hkk).2.1; rw [hins] at this; cases this
+      | ins => exact slice_eq_idxs bl _ _ (kind_ins hkk).2.2.2
+  · rfl
+
+/-- Nothing to do for the routes: every target route is on the device and every further device route
+lies in a VRF for which the target has no routes. -/
+theorem routePlan_quiet (al bl : List Route) (hnd : (al.map (·.text)).Nodup)
+    (hB : ∀ rb ∈ bl, rb.text ∈ al.map (·.text))
+    (hA : ∀ ra ∈ al, ra.text ∈ bl.map (·.text) ∨ ra.vrf ∉ bl.map (·.vrf)) :
+    (routePlan al bl).1 = [] := by
+  unfold routePlan
+  by_cases hal : al.isEmpty = true
+  · have : al = [] := List.isEmpty_iff.mp hal
+    subst this
+    simp only [List.isEmpty_nil, ↓reduceIte]
+    cases bl with
+    | nil => rfl
+    | cons r rs => have := hB r (List.mem_cons_self ..); simp at this
+  · simp only [hal, Bool.false_eq_true, ↓reduceIte]
+    obtain ⟨A, hA'⟩ : ∃ A, A = al.map (·.text) := ⟨_, rfl⟩
+    obtain ⟨B, hB'⟩ : ∃ B, B = bl.map (·.text) := ⟨_, rfl⟩
+    have hAL : A.length = al.length := by simp [hA']
+    have hBL : B.length = bl.length := by simp [hB']
+    obtain ⟨rsA, rsB, hrs, hkA, hkB, hfD, _, hfI⟩ := diffUnordered_spec A B (by rw [hA']; exact hnd)
+    rw [hAL, hBL] at hkA hkB
+    have hkAll : ∀ r ∈ rsA ++ rsB, (kindOf al.length bl.length r).isSome = true := by
+      intro r hr
+      rcases List.mem_append.mp hr with h1 | h1
+      · rcases hkA r h1 with h2 | h2 <;> simp [h2]
+      · simp [hkB r h1]
+    have hI0 : sIns A 0 B = [] := by
+      apply List.eq_nil_iff_forall_not_mem.mpr
+      intro j hj
+      obtain ⟨t, ht, _, hl⟩ := mem_sIns.mp hj
+      rw [hBL] at ht
+      rw [hB', getD_text t ht] at hl
+      have := hB _ (getD_mem_of_lt bl t ht)
+      rw [← hA'] at this
+      rw [List.contains_iff_mem.mpr this] at hl
+      cases hl
+    have hfIall : fIns (rsA ++ rsB) = [] := by rw [fIns_append, fIns_of_delEq hkA, List.nil_append, hfI, hI0]
+    have hfDall : fDel (rsA ++ rsB) = sDel B 0 A := by rw [fDel_append, fDel_of_ins hkB, List.append_nil, hfD]
+    simp only [← hA', ← hB', hrs, route_dels_flat, route_inss_flat al.length bl _ hkAll, hfIall, hfDall, List.map_nil,
+      List.foldl_nil, List.nil_append]
+    apply List.filterMap_eq_nil_iff.mpr
+    intro d hd
+    obtain ⟨k, hk, rfl⟩ := List.mem_map.mp hd
+    obtain ⟨t, ht, rfl, hl⟩ := mem_sDel.mp hk
+    rw [hAL] at ht
+    simp only [Nat.zero_add]
+    have hnotB := lastIdx_none.mp hl
+    rw [hA', getD_text t ht] at hnotB
+    rcases hA _ (getD_mem_of_lt al t ht) with h1 | h1
+    · rw [← hB'] at h1; exact absurd h1 hnotB
+    · have : (bl.map (·.vrf)).contains (al.getD t default).vrf = false := by simpa using h1
+      simp only [this, Bool.false_and, Bool.false_eq_true, ↓reduceIte]
+
 end NA.F2
